@@ -327,7 +327,22 @@ pub fn run(run: &Run) {
     }
     let steps = AtomicU64::new(0);
     let stats: [AtomicU64; 4] = [AtomicU64::new(0), AtomicU64::new(0), AtomicU64::new(0), AtomicU64::new(0)];
-    let resize_menu: Vec<u32> = if thorough { vec![1, 3, 4096] } else { vec![1, 4096] };
+    // new sizes that do and do not divide what has already been received, smaller and larger than the old one
+    let resize_for = |cs: u32| -> Vec<u32> {
+        let mut v: Vec<u32> = if thorough { vec![1, 3, cs + 1, 2 * cs + 1, 100, 200, 4096, 0x7FFF_FFFF] } else { vec![1, cs + 1, 4096] };
+        if cs > 2 {
+            v.push(cs - 1);
+            if !thorough {
+                v.push(100);
+                v.push(200);
+            }
+        }
+        v.sort();
+        v.dedup();
+        v.retain(|n| *n != cs);
+        v
+    };
+    let resize_menu: Vec<u32> = { let mut v = resize_for(2); v.extend(resize_for(128)); v.sort(); v.dedup(); v };
     outers.par_iter().for_each(|(cs, msgs)| {
         let counts: Vec<usize> = msgs.iter().map(|m| (m.len + *cs as usize - 1) / *cs as usize).collect();
         for sched in interleavings(&counts) {
@@ -336,10 +351,7 @@ pub fn run(run: &Run) {
             // an in-band Set Chunk Size at every gap (two-message cases; three-message cases: thorough only)
             if msgs.len() == 2 || thorough {
                 for g in 1..sched.len() {
-                    for &n in resize_menu.iter() {
-                        if n == *cs {
-                            continue;
-                        }
+                    for &n in resize_for(*cs).iter() {
                         let c = Case { cs: *cs, msgs: msgs.clone(), schedule: sched.clone(), resize: Some((g, n)) };
                         check_case(&c, run, &steps, &stats);
                     }
